@@ -106,7 +106,7 @@ def check_bounded_read_loop(R, f, rid_prefix, loop, counter, buff_names, require
                      key_extra='decrement-on-every-path')
         # --- c: EOF handling
         if var is None:
-            R.ob(rid_prefix + 'c', f, c, False, detail='result of read() is not bound to a name; cannot see an EOF test')
+            R.undecided(rid_prefix + 'c', f, c, f'{short(c)}: end-of-stream handling', 'the result of read() is not bound to a name; no recogniser for this form')
             continue
         tests = [(n, lab) for (n, lab) in T.falsy_tests(g, var, within=loop.body)]
         ys = T.yield_nodes(g, within=loop.body)
@@ -155,6 +155,9 @@ def check(P, R):
     R.require(len(loops) >= 1, f'{f.fq}: no while-loop that reads the stream')
     for loop in loops:
         counter = T.counter_of_while(loop)
+        if counter is None and not T.weak_loop_bound(loop):
+            R.undecided('C04.a', f, loop.test, f'while {src(loop.test)}', 'the bound of the read loop is not in a form with a recogniser (expected `remaining > 0`)')
+            continue
         if counter is None:
             R.ob('C04.a', f, loop.test, False, text=f'while {src(loop.test)}',
                  detail='the read loop is not conditioned on `remaining > 0`: a negative remainder (Content-Length absent: -1) is truthy / non-zero, '
@@ -325,15 +328,16 @@ def check_body_read(P, R):
          detail='' if rebinds else 'no switch of the buffer to a TemporaryFile found', nontrivial=False)
     # the rebinding happens at most once: guarded by a flag set on the same edge
     for d in rebinds:
-        test = enclosing(d.stmt, ast.If)
         ok = False
-        if test is not None:
-            flags = [x.id for n in ast.walk(test.test) if isinstance(n, ast.UnaryOp) and isinstance(n.op, ast.Not)
-                     for x in ast.walk(n.operand) if isinstance(x, ast.Name)]
-            for fl in flags:
-                sets = [s for s in walk_shallow(test) if isinstance(s, ast.Assign) and any(
-                    isinstance(t, ast.Name) and t.id == fl for t in s.targets) and is_const(s.value, True)]
-                if sets and all(T._inside(s, test.body) for s in sets):
+        # some flag is known to be false where the switch happens, and is set on every way from the switch back to the loop head
+        for (e_, holds_, tn_) in T.guard_atoms(f, d.node, within=loop):
+            if isinstance(e_, ast.Name) and not holds_:
+                fl = e_.id
+                sets = [n_ for n_ in g.nodes for dd in rd.gen.get(n_, []) if dd.name == fl and dd.value is not None and is_const(dd.value, True)
+                        and n_.ast is not None and T._inside(n_.ast, loop.body)]
+                resets = [n_ for n_ in g.nodes for dd in rd.gen.get(n_, []) if dd.name == fl and n_.ast is not None and T._inside(n_.ast, loop.body)
+                          and not (dd.value is not None and is_const(dd.value, True))]
+                if sets and not resets and g.must_pass(d.node, head, sets):
                     ok = True
         R.ob('C04.d', f, d.stmt, ok, text=f'{short(d.stmt)} [once]', detail='' if ok else
              'the switch to a temporary file is not guarded by a one-shot flag set on the same branch',
@@ -376,9 +380,9 @@ def check_body_props(P, R):
     for call in [x for x in walk_shallow(f.node) if isinstance(x, ast.Call) and dotted(x.func) == '_body_read']:
         kws = {k.arg: k.value for k in call.keywords}
         a0 = call.args[0] if call.args else None
-        ok = a0 is not None and src(a0).replace('"', "'") == "self.environ['wsgi.input'].read"
+        ok = a0 is not None and T.xsrc(f, a0).replace('"', "'") == "self.environ['wsgi.input'].read"
         R.ob('C04.e', f, call, ok, text='reader = environ[wsgi.input].read', detail='' if ok else f'stream read callable is `{short(a0)}`')
-        ok = 'content_length' in kws and src(kws['content_length']) == 'self.content_length'
+        ok = 'content_length' in kws and T.xsrc(f, kws['content_length']) == 'self.content_length'
         R.ob('C04.e', f, call, ok, text='content_length=self.content_length', detail='' if ok else
              'the declared length passed to the reader is not the Content-Length property')
     # body property rewinds on every access
@@ -399,7 +403,14 @@ def check_body_props(P, R):
     fc = c.methods.get('content_length')
     R.require(fc is not None, 'BodyMixin.content_length not found')
     rets = [n for n in walk_shallow(fc.node) if isinstance(n, ast.Return) and n.value is not None]
+    def _is_int_of_header(v_, at_):
+        x_ = T.expand(fc, v_, at_)
+        return 'CONTENT_LENGTH' in src(x_) and isinstance(x_, ast.Call) and dotted(x_.func) == 'int'
+    any_int = any(_is_int_of_header(r.value, fc.cfg.node_of_stmt(r)[0]) for r in rets)
     for r in rets:
-        s = src(r.value)
-        ok = 'CONTENT_LENGTH' in s and isinstance(r.value, ast.Call) and dotted(r.value.func) == 'int'
+        ok = _is_int_of_header(r.value, fc.cfg.node_of_stmt(r)[0])
+        if not ok and any_int and T.const(r.value) == -1 if hasattr(T, 'const') else False:
+            ok = True
+        if not ok and any_int and isinstance(r.value, ast.UnaryOp) and isinstance(r.value.op, ast.USub) and is_const(r.value.operand, 1):
+            ok = True        # the explicit `return -1` for a missing / empty header
         R.ob('C04.e', fc, r, ok, detail='' if ok else 'content_length is not int(environ CONTENT_LENGTH)', nontrivial=False)
